@@ -69,6 +69,10 @@ func main() {
 			rules.GenStdTable(core.NewCtx("C09", "quick", prog))
 			return
 		}
+		if tier == "schema" {
+			rules.SchemaDump(core.NewCtx("C03", "quick", prog))
+			return
+		}
 		if tier == "acc" {
 			rules.AccDump(core.NewCtx("C09", "quick", prog))
 			return
